@@ -337,6 +337,27 @@ func (eapAkaPrime *EapAkaPrime) Unmarshal(rawData []byte) error {
 					return errors.Wrapf(err, "EAP-AKA' Unmarshal(): read %s attribute/padding failed", attr.attrType)
 				}
 			}
+		case AT_CHECKCODE:
+			if attr.length == 0 {
+				return errors.Errorf("EAP-AKA' Unmarshal(): %s attribute length must not be 0", attr.attrType)
+			}
+
+			// The reserved bytes are ignored on reception
+			reserved := make([]byte, EapAkaAttrReservedLen)
+			n, err = io.ReadFull(bufReader, reserved)
+			if n != EapAkaAttrReservedLen || err != nil {
+				return errors.Errorf("EAP-AKA' Unmarshal(): incomplete reserved bytes for %s", attr.attrType)
+			}
+
+			valLen := 4*int(attr.length) - EapAkaAttrTypeLen - EapAkaAttrLengthLen - EapAkaAttrReservedLen
+			attr.value = make([]byte, valLen)
+			n, err = io.ReadFull(bufReader, attr.value)
+			if n != valLen || (err != nil && valLen != 0) {
+				return errors.Errorf("EAP-AKA' Unmarshal(): %s attribute value length mismatch, "+
+					"expect %d bytes but got %d bytes",
+					attr.attrType, valLen, n,
+				)
+			}
 		case AT_KDF:
 			valLen := 4*attr.length - EapAkaAttrTypeLen - EapAkaAttrLengthLen
 			attr.value = make([]byte, valLen)
